@@ -70,6 +70,49 @@ class Root:
         return m
 
 
+class RootArr:
+    """what numpy.roots returns: a 1-D array of roots (indexable by position, slice or boolean mask, iterable,
+    with .real / .imag)"""
+    def __init__(self, roots):
+        self.roots = list(roots)
+
+    def __len__(self):
+        return len(self.roots)
+
+    def __iter__(self):
+        return iter(self.roots)
+
+    @property
+    def shape(self):
+        return (len(self.roots),)
+
+    def __getitem__(self, k):
+        import numpy
+        if isinstance(k, (int, numpy.integer)):
+            return self.roots[k]
+        if isinstance(k, slice):
+            return RootArr(self.roots[k])
+        mask = [bool(x) for x in k]          # symbolic entries are decided here (fork)
+        if len(mask) != len(self.roots):
+            raise IndexError('boolean index did not match indexed array')
+        return RootArr([r for r, m in zip(self.roots, mask) if m])
+
+    def _parts(self, f):
+        from symx import npshim
+        out = npshim._np.empty(len(self.roots), dtype=object)
+        for i, r in enumerate(self.roots):
+            out[i] = f(r)
+        return out.view(npshim.FArr)
+
+    @property
+    def real(self):
+        return self._parts(lambda r: r.val)
+
+    @property
+    def imag(self):
+        return self._parts(lambda r: r.im)
+
+
 def _install_roots_stub(ctx, single=False):
     """returns a dict that records the coefficient vectors handed to np.roots"""
     rec = dict(calls=[])
@@ -87,7 +130,7 @@ def _install_roots_stub(ctx, single=False):
             return cache[key]
         assert len(c) == 4
         if single:      # only the coefficient vector is of interest
-            rs = [Root(ctx, ctx.fresh('root', 1e-6, 10))]
+            rs = RootArr([Root(ctx, ctx.fresh('root', 1e-6, 10))])
             cache[key] = rs
             return rs
         r0 = ctx.fresh('root')
@@ -101,11 +144,19 @@ def _install_roots_stub(ctx, single=False):
         else:
             pair = _Pair(ctx, c, r0)
             rs += [Root(ctx, pair=pair, sign=1), Root(ctx, pair=pair, sign=-1)]
+        rs = RootArr(rs)
         cache[key] = rs
         return rs
 
     npshim.stubs['roots'] = roots
-    npshim.stubs['isreal'] = lambda x: x.is_real if isinstance(x, Root) else __import__('numpy').isreal(x)
+    def isreal(x):
+        import numpy
+        if isinstance(x, Root):
+            return x.is_real
+        if isinstance(x, RootArr):
+            return numpy.array([r.is_real for r in x.roots], dtype=bool)
+        return numpy.isreal(x)
+    npshim.stubs['isreal'] = isreal
     if not getattr(npshim._Shim, '_root_aware', False):
         npshim._Shim._root_aware = True
 
@@ -115,6 +166,8 @@ def _install_roots_stub(ctx, single=False):
             def f(self, a, *args, **kw):
                 if isinstance(a, Root):
                     return scalar(a)
+                if isinstance(a, RootArr):
+                    a = a.roots
                 if isinstance(a, (list, tuple)) and any(isinstance(x, Root) for x in a):
                     out = npshim._np.empty(len(a), dtype=object)
                     for i, x in enumerate(a):
